@@ -22,8 +22,8 @@ def P(pid, rules, explanation, not_decided, assumptions=(), design="3"):
                           assumptions=list(assumptions), design=f"DESIGN.md section {design}")
 
 
-P("C01", ["IDX", "RETRY", "SIGN", "FREE", "CPFORM", "ARGNAME", "DIRECTION", "RATIOFORM", "PGFORM", "SUBFORM"],
-  "Structural necessary conditions of C01, decided on every path of the source: (IDX) index-space typing of "
+P("C01", ["IDX", "RETRY", "SIGN", "FREE", "CPFORM", "ARGNAME", "DIRECTION", "RATIOFORM", "PGFORM", "SUBFORM", "SHARED"],
+  "(SHARED, conservative) the kernels keep no module-level state between calls, so an iteration depends on this run only; Structural necessary conditions of C01, decided on every path of the source: (IDX) index-space typing of "
   "get_cauchy_point shows the sorted breakpoint list is filtered and walked in its own rank space, so variables "
   "resting on a bound with the gradient pushing outward (t = 0) cannot scramble the breakpoint order -- the "
   "defect behind the stalls the property names; (RETRY) a failed line search aborts only after a retry from a "
@@ -34,16 +34,16 @@ P("C01", ["IDX", "RETRY", "SIGN", "FREE", "CPFORM", "ARGNAME", "DIRECTION", "RAT
   "bound ratios are (bound - point)/direction.",
   "convergence to a KKT point, the level reached by the projected gradient, absence of stalls in general "
   "(floating-point trajectories over all convex objectives)", design="3/C01")
-P("C02", ["BOX", "SIGN", "FDB"],
-  "C02 is decided as a provenance property: (BOX) a must-dataflow shows that every argument of the wrapper's "
+P("C02", ["BOX", "SIGN", "FDB", "SF6"],
+  "(SF6) the user's callables receive private copies, so user code cannot write the projected arrays the provenance argument tracks; C02 is decided as a provenance property: (BOX) a must-dataflow shows that every argument of the wrapper's "
   "fun/grad/fun_and_grad (hence of the user's objective, gradient and of approx_derivative's x0), the callback's "
   "x and every returned x is the output of a projection onto the caller's [lb, ub] (np.clip / clip2bounds / "
   "min-max with the very lb, ub of get_bounds) or a copy of it, with no arithmetic in between; (SIGN) step "
   "bounds pick the bound the direction points to; (FDB) the caller's box is the box handed to the differencer.",
   "nothing of the statement is left out, under the assumptions np.clip is exact and SciPy's approx_derivative "
   "keeps its stencil inside `bounds`", design="3/C02")
-P("C03", ["DOWNHILL", "ACCEPT", "KEEP", "LSCAP"],
-  "The selection logic only compares objective values, so its correctness is a dataflow fact: (DOWNHILL) an "
+P("C03", ["DOWNHILL", "ACCEPT", "KEEP", "LSCAP", "SCALEPOS"],
+  "(SCALEPOS) the packaged gradient scaler yields a positive factor -- a negative one turns descent into ascent; The selection logic only compares objective values, so its correctness is a dataflow fact: (DOWNHILL) an "
   "order-fact analysis of line_search proves the returned step is None or a step whose evaluated value is "
   "strictly below the (never overwritten) start value, NaN trial values never qualify; (ACCEPT) inside the main loop "
   "the iterate is only ever redefined as the projection of x + s*d with s the step returned by this iteration's "
@@ -61,23 +61,23 @@ P("C04", ["EXIT", "RET", "NITB", "LSCAP", "ONCE", "PGFORM"],
   "relative-reduction quantity is (f_old - f)/max(|f_old|, |f|, 1), up to algebraic equivalence.",
   "arithmetic inside the comparisons is abstracted to orderings of syntactically identical operands; NaN "
   "projected gradients are outside the property's smooth-objective premise", design="3/C04")
-P("C05", ["COH", "CNT", "FIELDS", "SF1", "SF3", "SF5", "SF6"],
-  "Under the premise that the user's functions are deterministic, bit-equality reduces to a typestate: (COH) a "
+P("C05", ["COH", "CNT", "FIELDS", "SF1", "SF3", "SF5", "SF6", "ESC", "SF4"],
+  "(ESC) no live buffer escapes into a result or callback state, (SF4) the scaling factor multiplies a fresh product at return time; Under the premise that the user's functions are deterministic, bit-equality reduces to a typestate: (COH) a "
   "must-dataflow over minimize_lbfgsb shows each result / callback state is built where fun and jac are the "
   "wrapper's outputs for the reported x with no rebinding or in-place write in between; (CNT) counters are "
   "reported from and restored into the wrapper only, restores precede every evaluation; (FIELDS) writer/reader "
   "field agreement; the wrapper's own counting / caching rules are those of C15.",
   "bit-equality of the user's arithmetic between two calls (trusted: same call); determinism of user code",
   design="3/C05")
-P("C06", ["ORIENT", "FIELDS", "MEM"],
-  "(ORIENT) orientation typing of the checkpoint decoder: increments accumulated from the newest pair backwards, "
+P("C06", ["ORIENT", "FIELDS", "MEM", "OWN", "FDB", "BIND", "SFREAD"],
+  "(OWN) decoding a checkpoint does not write into it, (FDB) differencing options depend on the caller's arguments only, (BIND) the line search sees the global iteration number, (SFREAD) the solver reads no evaluation history of the wrapper, which a restart cannot reproduce; (ORIENT) orientation typing of the checkpoint decoder: increments accumulated from the newest pair backwards, "
   "subtracted from the newest point, appended oldest-first, identical shape for X and G -- the inverse of the "
   "encoder fixed by SIB; (FIELDS) every field a restart reads is written by every result and lands in the live "
   "variable it came from; (MEM) the refill is bounded by maxcor+1 points and drops from the left, so reducing "
   "maxcor keeps the most recent pairs.",
   "agreement 'up to rounding' of the continued iterates with the uninterrupted run (arithmetic)", design="3/C06")
-P("C07", ["ESC", "NITOFF", "SIB", "CBUSE", "CNT", "FIELDS", "ORIENT"],
-  "(ESC) may-alias origins of everything handed to the callback are disjoint from the targets of every in-place "
+P("C07", ["ESC", "NITOFF", "SIB", "CBUSE", "CNT", "FIELDS", "ORIENT", "DOWNHILL", "BIND", "SFREAD"],
+  "(SFREAD, DOWNHILL, BIND) the line search depends only on quantities a checkpoint carries: start value, global iteration number, evaluators; (ESC) may-alias origins of everything handed to the callback are disjoint from the targets of every in-place "
   "write reachable afterwards; (NITOFF) counter-offset analysis: the state's nit equals the nit of a run stopped "
   "at that iteration; (SIB) the state and the final result bind the same keywords to the same expressions; "
   "(CBUSE) the callback's result only decides the user-callback stop and nothing else depends on the presence "
@@ -85,8 +85,8 @@ P("C07", ["ESC", "NITOFF", "SIB", "CBUSE", "CNT", "FIELDS", "ORIENT"],
   "restored into the wrapper from the right fields before any evaluation, (FIELDS) writer/reader field agreement, "
   "(ORIENT) the history decoder inverts the encoder.",
   "numerical equality of the continuation with the uninterrupted run", design="3/C07")
-P("C08", ["IDX", "SIGN", "PIN", "CPFORM", "RATIOFORM"],
-  "(IDX) index-space typing of the breakpoint bookkeeping (the property's named defect); (SIGN) breakpoints "
+P("C08", ["IDX", "SIGN", "PIN", "CPFORM", "RATIOFORM", "BFGSFORM", "OWN"],
+  "(BFGSFORM) the model handed to the kernel is the consistent compact form, (OWN) the kernel does not write the model it is given; (IDX) index-space typing of the breakpoint bookkeeping (the property's named defect); (SIGN) breakpoints "
   "t >= 0 on both branches, pinned bound on the side of d, f' <= 0, f'' >= 0 at their definitions; (PIN) "
   "variables reaching a bound are pinned by copying the bound, not by arithmetic; (CPFORM) the initialisation, "
   "the per-breakpoint updates of c, f', f'', p, dt_min and the final segment are symbolically executed into a "
@@ -95,15 +95,15 @@ P("C08", ["IDX", "SIGN", "PIN", "CPFORM", "RATIOFORM"],
   "floating-point error of these formulas; that the loop visits breakpoints until the first local minimiser "
   "(control structure beyond IDX); model decrease as a numerical fact",
   design="3/C08")
-P("C09", ["SIGN", "ALPHA", "FREE", "RATIOFORM", "SUBFORM"],
-  "The three places where the subspace step touches the box: (SIGN) truncation ratios non-negative on both "
+P("C09", ["SIGN", "ALPHA", "FREE", "RATIOFORM", "SUBFORM", "KFACT", "SHARED", "OWN"],
+  "(KFACT) the LEL^T factor of K has the reference block form on its only non-trivial path, (SHARED, OWN; conservative) the kernel keeps no state between calls and does not write its inputs; The three places where the subspace step touches the box: (SIGN) truncation ratios non-negative on both "
   "branches; (ALPHA) the truncation factor is min(1, nonneg) and multiplies the whole step once; (FREE) free set = "
   "strictly interior variables of the Cauchy point, active set its complement, step enters only through Z; "
   "(RATIOFORM) ratios are (bound - x_c)/dHat; (SUBFORM) reduced gradient r = g + theta(x_c - x) - W M c and step "
   "dHat = -(1/theta)(rHat + (1/theta) Z^T W v) match the direct primal method up to algebraic equivalence.",
   "the solve of the reduced system itself (K, LEL^T, Sherman-Morrison-Woodbury), model decrease, descent direction", design="3/C09")
-P("C10", ["MEM", "BFGSFORM", "OFFER"],
-  "The four memory-discipline clauses of C10 are decided package-wide over every insertion / removal / rebinding "
+P("C10", ["MEM", "BFGSFORM", "OFFER", "RETRY"],
+  "(RETRY) the retry branch cuts the stored points to one when it resets the matrices, so matrices and stored pairs agree; The four memory-discipline clauses of C10 are decided package-wide over every insertion / removal / rebinding "
   "of the point and gradient histories (MEM): guarded by the strict curvature test on the inserted pair, "
   "reject-no-touch for history and matrices, bounded FIFO (<= maxcor pairs, oldest dropped), lock-step of X and G; "
   "(BFGSFORM) theta = y.y/s.y of the newest pair and S, Y, L, D, W, the middle-matrix factors assembled from the "
@@ -158,8 +158,8 @@ P("C16", ["FDB", "MODES", "BOX", "SF7"],
   "each documented mode has a handler on both sides; (SF7) stencil evaluations go through the counting wrapper.",
   "agreement of the final objective value with the exact-gradient solution to the accuracy of the scheme",
   design="3/C16")
-P("C17", ["SCALER", "UNITS", "SF4"],
-  "(SCALER) one call site outside loops, arguments = clipped start point, unscaled gradient, lb, ub, result is the "
+P("C17", ["SCALER", "UNITS", "SF4", "SCALEPOS"],
+  "(SCALEPOS) the packaged scaler returns a positive factor; (SCALER) one call site outside loops, arguments = clipped start point, unscaled gradient, lb, ub, result is the "
   "only write of the factor outside the class; (UNITS) raw/scaled unit typing: target tested on the unscaled "
   "value, ftol test compares like units, results and line search get scaled values; (SF4) scale applied inside "
   "the accessors.", "equality of two complete runs (relation between trajectories)", design="3/C17")
